@@ -396,7 +396,7 @@ def run(ctx):
     # "a pre-flight rejection leaves an existing output file untouched": what a writer cannot store is refused by its
     # prepare_dump (before the API opens the file), not by its dump_one (after the file was truncated) -- the guard
     # matrix C08 decides, evaluated per format and object class
-    ctx.borrow("c08", {"R5": "R9"})
+    ctx.borrow("c08", {"R5": "R9", "R1": "R10"})
 
 
 
